@@ -542,6 +542,24 @@ pub const GROUPS: &[(&str, &[(&str, &[Sel])])] = &[
             ],
         )],
     ),
+    // renetcode: the four functions of crypto.rs, translated from the source text.  The RustCrypto calls they make
+    // (`Nonce::from`, `XNonce::from_slice`, `Tag::from_slice`, `Key::from_slice`, `(X)ChaCha20Poly1305::new`,
+    // `encrypt_in_place_detached`, `decrypt_in_place_detached`) are the external interface: builtins of
+    // `Base/RustSemCrypto.lean` over the abstract `[RustSem.Aead]`.  Every OTHER group keeps calling the hand-written
+    // `RustSem.encrypt_in_place` … builtins (see `Cx::find_fn`); `Props/SrcTieNcCrypto.lean` proves the two equal.
+    // (last: it refers to `NETCODE_MAC_BYTES` of group NcCodec)
+    (
+        "NcCrypto",
+        &[(
+            "renetcode/src/crypto.rs",
+            &[
+                Sel::Fn("dencrypted_in_place"),
+                Sel::Fn("dencrypted_in_place_xnonce"),
+                Sel::Fn("encrypt_in_place"),
+                Sel::Fn("encrypt_in_place_xnonce"),
+            ],
+        )],
+    ),
 ];
 
 pub fn work_list() -> Vec<WorkItem> {
